@@ -323,6 +323,20 @@ def sweep_programs():
                     out.append(('method-other-arguments:%s.%s#%d.%d' % (tname, m, ai, ri), 'value = %s\nresult = value.%s%s\nprint(result, value)\n' % (recv, m, args)))
                 if tname in BUILT_UP:
                     out.append(('method-other-arguments:%s.%s#%d.b' % (tname, m, ai), '%sresult = value.%s%s\nprint(result, value)\n' % (BUILT_UP[tname], m, args)))
+    # indexing and slicing: every kind of sequence (literal, repeated, converted, built up, empty) by every kind of index
+    seqs = {'str-literal': "'hello'", 'str-input': "input()", 'list-literal': "[3, 1, 2]", 'list-repeated': "[0] * n", 'list-converted': "list(range(n))", 'list-empty': "[]",
+            'tuple-literal': "(3, 'a', 2.5)", 'tuple-repeated': "(0,) * n", 'tuple-repeated-left': "n * ('.',)", 'tuple-converted': "tuple([1, 2, 3])", 'tuple-empty': "tuple()",
+            'tuple-of-input': "tuple(input())", 'dict-literal': "{0: 'a', 1: 'b'}", 'range': "range(n)", 'split': "'a b c'.split()"}
+    idxs = {'literal': "0", 'literal-negative': "-1", 'variable': "i", 'expression': "len(seq) - 1", 'half': "n // 2", 'loop-variable': None, 'slice': "1:", 'slice-vars': "i:n", 'slice-step': "::2"}
+    for sk, sexpr in seqs.items():
+        for ik, iexpr in idxs.items():
+            if sk.startswith('dict') and ik.startswith('slice'):
+                continue
+            if ik == 'loop-variable':
+                body = 'for k in range(n):\n    print(seq[k])\n'
+            else:
+                body = 'print(seq[%s])\n' % iexpr
+            out.append(('indexing:%s[%s]' % (sk, ik), 'n = 3\ni = 1\nseq = %s\n%s' % (sexpr, body)))
     for mod in STD_MODULES:
         out.append(('import:' + mod, 'import %s\nprint(%s)\n' % (mod, mod)))
         out.append(('from-import:' + mod, 'from %s import *\nx = 1\nprint(x)\n' % mod))
